@@ -425,13 +425,13 @@ pub fn run(ctx: &Ctx) -> Report {
     }
     let mut unit = 0usize;
     let mut history: Vec<Op> = Vec::new();
-    fn rec(ctx: &Ctx, rep: &mut Report, tag: &str, history: &mut Vec<Op>, depth: usize, unit: &mut usize) {
-        if !history.is_empty() {
+    fn rec(ctx: &Ctx, rep: &mut Report, tag: &str, history: &mut Vec<Op>, depth: usize, unit: &mut usize, ops: &[Op], prefix_len: usize) {
+        if history.len() > prefix_len {
             let u = *unit;
             *unit += 1;
             if ctx.owns(u) {
                 // the device roles alternate with the history number; the first two levels run both ways
-                let roles: Vec<bool> = if history.len() <= 2 { vec![false, true] } else { vec![u % 2 == 1] };
+                let roles: Vec<bool> = if history.len() - prefix_len <= 2 { vec![false, true] } else { vec![u % 2 == 1] };
                 for swap in roles {
                     rep.evaluations += 1;
                     rep.transitions += history.len() as u64;
@@ -461,15 +461,21 @@ pub fn run(ctx: &Ctx) -> Report {
                 }
             }
         }
-        if history.len() < depth {
-            for op in OPS {
-                history.push(op);
-                rec(ctx, rep, tag, history, depth, unit);
+        if history.len() - prefix_len < depth {
+            for op in ops {
+                history.push(*op);
+                rec(ctx, rep, tag, history, depth, unit, ops, prefix_len);
                 history.pop();
             }
         }
     }
-    rec(ctx, &mut rep, &tag, &mut history, depth, &mut unit);
+    rec(ctx, &mut rep, &tag, &mut history, depth, &mut unit, &OPS, 0);
+    // Non-initial start: a device is already trusted, then every sequence of observations (the ops
+    // whose answer may depend on what was observed before) one level deeper than the full alphabet allows.
+    let observing = [Op::ObserveTOld, Op::ObserveTNew, Op::ObserveUNew, Op::MaybeObserveTNew, Op::MaybeObserveUNew, Op::GetUnlocked, Op::TouchTOld, Op::AddOtherRefused];
+    let mut history = vec![Op::AddTrusted];
+    rec(ctx, &mut rep, &tag, &mut history, depth, &mut unit, &observing, 1);
+    rep.note(format!("C19: after add_trusted_path, all sequences over the {} observing ops {:?} to depth {}", observing.len(), observing, depth));
     rep.max_depth = depth as u64;
     rep.note(format!("C19: all histories over {} ops {:?} to depth {} (each in a fresh child process, trusted device alternating between /dev/shm and the root file system), oracle after every call", OPS.len(), OPS, depth));
     rep
